@@ -293,6 +293,9 @@ NoBadC05 == \A b \in bad : b.p # "C05"
 NoBadC08 == \A b \in bad : b.p # "C08"
 NoBadC16 == \A b \in bad : b.p # "C16"
 
+(* error traces print only this *)
+Brief == [l |-> l, diff |-> diff, bad |-> bad]
+
 (* acceptance: every event consumed *)
 AllConsumed == TLCGet("stats").diameter = Len(Rec)
 Accepted == IF AllConsumed THEN TRUE
